@@ -443,23 +443,12 @@ deriving DecidableEq, Repr
 
 def defCli : CliConf := { name := [], type := 0, secret := [], dup := 0 }
 
-/-- `radsrv(rq)`: request object `o` has buf, frm set by the transport -/
-def radsrv (w : World) (o : Nat) : World × Nat :=
-  match getRq w o with
-  | none => (w, 1)
-  | some rq0 =>
-    let ci := rq0.frm.getD 0
-    let cc := match getCli w ci with | some c => w.cliConfs.getD c.conf defCli | none => defCli
-    let pm := parse w.H (rq0.buf.getD []) (some cc.secret) none
-    let w := setRq w o { rq0 with buf := none }
-    match pm with
-    | none => (freerq w o, 0)
-    | some m0 =>
-      if m0.macInvalid then (freerq w o, 0)
-      else
+/-- everything `radsrv` does after the message was parsed and its Message-Authenticators
+    found valid; every path of this part returns 1 -/
+def radsrvCore (w : World) (o ci : Nat) (cc : CliConf) (m0 : Msg) : World :=
         let w := updRq w o fun r => { r with msg := some m0, rqid := m0.id, rqauth := m0.auth }
-        let exit (w : World) : World × Nat := (freerq w o, 1)
-        let rmclrqexit (w : World) : World × Nat := (freerq (rmclientrq w o m0.id.toNat) o, 1)
+        let exit (w : World) : World := freerq w o
+        let rmclrqexit (w : World) : World := freerq (rmclientrq w o m0.id.toNat) o
         if m0.code = 40 then exit (respond w o 42 (some { t := 101, v := beEnc 4 406 }) true)
         else if m0.code = 43 then exit (respond w o 45 (some { t := 101, v := beEnc 4 406 }) true)
         else if m0.code ≠ 1 ∧ m0.code ≠ 12 ∧ m0.code ≠ 4 then exit w
@@ -545,7 +534,26 @@ def radsrv (w : World) (o : Nat) : World × Nat :=
                                     addttlattr w.opts.ttlType (if s.conf.addttl ≠ 0 then s.conf.addttl else w.opts.addttl) as7
                                   else as7
                                 let w := updRq w o fun r => { r with msg := some { m0 with attrs := as8, auth := newauth }, to := some si }
-                                (sendrq w o, 1)
+                                sendrq w o
+
+/-- the client's block for the association a request came from -/
+def cliConfOf (w : World) (ci : Nat) : CliConf :=
+  match getCli w ci with | some c => w.cliConfs.getD c.conf defCli | none => defCli
+
+/-- `radsrv(rq)`: request object `o` has buf, frm set by the transport -/
+def radsrv (w : World) (o : Nat) : World × Nat :=
+  match getRq w o with
+  | none => (w, 1)
+  | some rq0 =>
+    let ci := rq0.frm.getD 0
+    let cc := cliConfOf w ci
+    let pm := parse w.H (rq0.buf.getD []) (some cc.secret) none
+    let w := setRq w o { rq0 with buf := none }
+    match pm with
+    | none => (freerq w o, 0)
+    | some m0 =>
+      if m0.macInvalid then (freerq w o, 0)
+      else (radsrvCore w o ci cc m0, 1)
 
 /-! ### reply path -/
 
